@@ -414,3 +414,30 @@ Definition kron_partial (As : list (list (list Z))) (rows : list Z) (restrict : 
          (((if restrict then k else r), c),
           prod_entries As (from_seq r (rowdims bs)) (from_seq c (coldims bs)))) l))
   end.
+
+(* ------------------------------------------------------------------------ *)
+(* histories on ONE MLMatrix object (mlmatrix.py:220-258: __init__, data     *)
+(* property and setter)                                                      *)
+(* ------------------------------------------------------------------------ *)
+(* The state of an MLMatrix is its structure and the current data tensor; every query
+   (nonzero, asmatrix, dot, reorder, ...) is a function of that state alone -- the model
+   has no other memory, so a query after `M.data = X2` denotes X2.
+   `data.setter`: assert X.shape == self.datashape (the flat model sees the total size;
+   a refused assignment leaves the state unchanged); then self._data = asarray(X). *)
+Inductive hop :=
+| OpSet (d : list Z)                   (* M.data = d *)
+| OpFromMatrix (A : list (list Z))     (* M.data = MLMatrix(structure, matrix=A).data *)
+| OpQuery.                             (* any query: no state change *)
+
+Definition set_ok (bidx : list pat) (d : list Z) : bool :=
+  Z.of_nat (length d) =? prodZ (datashape bidx).
+
+Definition hist_step (bs : list (Z * Z)) (bidx : list pat) (data : list Z) (op : hop) : list Z :=
+  match op with
+  | OpSet d => if set_ok bidx d then d else data
+  | OpFromMatrix A => data_from_matrix bs bidx A
+  | OpQuery => data
+  end.
+
+Definition hist_run (bs : list (Z * Z)) (bidx : list pat) (data : list Z) (ops : list hop) : list Z :=
+  fold_left (hist_step bs bidx) ops data.
